@@ -92,6 +92,15 @@ class Reporter:
 
 
 def run(ctx):
+    from harness.replay.framing import CodeUnderTestFailure
+    try:
+        _run(ctx)
+    except CodeUnderTestFailure as exc:
+        ctx.violation("the connection cannot be brought up over the read path under test: %s" % exc,
+                      replay={"kind": "handshake", "what": str(exc)}, signature="handshake-over-read-path-fails")
+
+
+def _run(ctx):
     from harness.replay import segments as rs
     h = rs.SegHarness()
     rep = Reporter(ctx)
@@ -358,6 +367,10 @@ def run(ctx):
 
 def replay(ctx, obj):
     from harness.replay import segments as rs
+    if obj.get("kind") == "handshake":
+        rs.open_connection(5)
+        print("handshake completed")
+        return
     if obj.get("kind") != "positions":
         for s in obj.get("trace", []):
             print(s)
